@@ -147,6 +147,28 @@ Definition bitvResize (newc oldc : bclass) (fresh b : bitv) : bitv :=
   if Nat.leb (nwords newc) (nwords oldc) then b
   else firstn (nwords oldc) b ++ skipn (nwords oldc) fresh.
 
+(* bitvPrint / bitvToString: "[" then, for i = 0..nbits-1, the digit of bitvTest(i) followed by a space when
+   i % 5 == 4, then "]".  The text is a list over the five characters the printers can produce.  bitvPrint
+   writes the same characters to a FILE and returns the sum of the fprintf results (= their number). *)
+Inductive pch := PLbr | PRbr | PZero | POne | PSpace.
+Fixpoint printLoop (c : bclass) (a : bitv) (i cnt : nat) : list pch :=
+  match cnt with
+  | O => []
+  | S k => (if bitvTest c a i then POne else PZero)
+           :: (if Nat.eqb (Nat.modulo i 5) 4 then [PSpace] else []) ++ printLoop c a (S i) k
+  end.
+Definition bitvToString (c : bclass) (a : bitv) : list pch := PLbr :: printLoop c a 0 (nbits c) ++ [PRbr].
+Definition bitvPrint (c : bclass) (a : bitv) : list pch * nat :=
+  let s := PLbr :: printLoop c a 0 (nbits c) ++ [PRbr] in (s, length s).
+(* reading a printed text back: the digits, in order *)
+Fixpoint unprint (s : list pch) : list bool :=
+  match s with
+  | [] => []
+  | POne :: t => true :: unprint t
+  | PZero :: t => false :: unprint t
+  | _ :: t => unprint t
+  end.
+
 (* ---- abstraction: the set as a list of booleans ---- *)
 Definition bits (c : bclass) (v : bitv) : list bool := map (bitvTest c v) (seq 0 (nbits c)).
 
